@@ -14,7 +14,9 @@ Iota(n) == [i \in 1..n |-> i - 1]
 Rev(s) == [i \in 1..Len(s) |-> s[Len(s) + 1 - i]]
 
 MapOps == {"map", "mapinfo", "elem", "mdinfo"}
-AllOps == MapOps \cup {"ext_ctor", "subext", "span", "span_obs", "eq"}
+\* "crash": under VH_DOMAIN_ONLY (sanitizer runs) an input line whose processing was stopped by a sanitizer, a signal or
+\* the watchdog is logged as one crash event - always a deviation (every call of the driver is a valid use)
+AllOps == MapOps \cup {"ext_ctor", "subext", "span", "span_obs", "eq", "crash"}
 
 \* the driver stayed inside the domain the property quantifies over (anything else is a harness error)
 Pre(ev) ==
@@ -32,7 +34,8 @@ Pre(ev) ==
                           /\ (ev.sn = -1 \/ ev.sn = ev.n))
 
 Bad(ev) ==
-    CASE ev.op = "map" -> Chk("mapping()", ev.off = Map(ev.layout, ev.ext, ev.sin, ev.idx))
+    CASE ev.op = "crash" -> "+trap_crash"
+      [] ev.op = "map" -> Chk("mapping()", ev.off = Map(ev.layout, ev.ext, ev.sin, ev.idx))
       [] ev.op = "elem" ->
             LET off == Map(ev.layout, ev.ext, ev.sin, ev.idx) IN
             Chk("operator()", ev.addr = off) \o Chk("operator[]array", ev.addr_arr = off) \o Chk("operator[]span", ev.addr_span = off)
@@ -67,7 +70,8 @@ Bad(ev) ==
 Judge(ev) == IF ~Pre(ev) THEN "harness-pre" ELSE LET b == Bad(ev) IN IF b = "" THEN "ok" ELSE b
 
 ExpectedRec(ev) ==
-    CASE ev.op \in {"map", "elem"} -> [off |-> Map(ev.layout, ev.ext, ev.sin, ev.idx)]
+    CASE ev.op = "crash" -> [ret |-> "every call returns"]
+      [] ev.op \in {"map", "elem"} -> [off |-> Map(ev.layout, ev.ext, ev.sin, ev.idx)]
       [] ev.op = "mapinfo" -> [strides |-> Strides(ev.layout, ev.ext, ev.sin), req |-> ReqSpan(ev.layout, ev.ext, ev.sin),
                                extents |-> ev.ext, rdyn |-> RankDynamic(ev.pat)]
       [] ev.op = "mdinfo" -> [size |-> Size(ev.ext), extents |-> ev.ext]
